@@ -95,9 +95,12 @@ def write_effects(ctx: Ctx) -> List[Tuple[FunctionInfo, ast.Call, str]]:
     return out
 
 
-def effect_census(ctx: Ctx) -> None:
+def effect_census(ctx: Ctx, only_reachable_from_mutate: bool = False) -> None:
     """R-EFFECT: the write-effect call sites of the package are exactly the two write-mode opens in mutate."""
     effs = write_effects(ctx)
+    if only_reachable_from_mutate:
+        reach = callgraph(ctx).reach(ctx.p.func(MUTATE))
+        effs = [e for e in effs if e[0].fq in reach or e[0].fq in OPEN_WRAPPERS]
     n_opens = 0
     for f in ctx.p.nontest_functions():
         for c in calls(f):
